@@ -92,6 +92,38 @@ def one_spec(tt, gid, g, cons, seed, settings):
     return {"spec": spec, "kinds": kinds, "nsol": len(sols), "exc": exc}
 
 
+GEN_CODE = '''import random
+def g_str():
+    return str(random.randint(0, 999))
+def g_int():
+    return random.randint(0, 99)
+def g_tree():
+    return ("<num>", [("<digit>", [(c, [])]) for c in str(random.randint(10, 999))])
+def g_flat():
+    return ("<num>", [(str(random.randint(10, 99)), [])])
+def g_sum(a, b):
+    return str((int(str(a)) + int(str(b))) % 1000)
+'''
+
+
+def generator_specs():
+    """generator-defined symbols: the value a generator returns - text, a number, or (deprecated) a tree written as nested
+    tuples, in the parser's shape or not - becomes a subtree that has to be a derivation of the symbol like any other"""
+    L = gen.lit_text
+    digit = gen.alt(*[L(str(d)) for d in range(10)])
+    out = []
+    for expr in ("g_str()", "g_int()", "g_tree()", "g_flat()", "g_sum(<p>, <q>)"):
+        rules = {"<start>": gen.cat(gen.nt("<tag>"), L("="), gen.nt("<num>"), L(";"), gen.rep(gen.nt("<tag>"), 0, 2)),
+                 "<num>": gen.rep(gen.nt("<digit>"), 1, 3), "<digit>": digit, "<tag>": gen.rep(gen.alt(L("a"), L("b")), 1, 2)}
+        if "<p>" in expr:
+            rules["<p>"] = gen.rep(gen.nt("<digit>"), 1, 2)
+            rules["<q>"] = gen.nt("<digit>")
+        g = {"start": "<start>", "rules": rules, "flavour": "text", "computed": 0, "code": GEN_CODE, "gens": {"<num>": expr}}
+        for cons in ([], ['where int(<num>) % 2 == 0'], ['where str(<tag>) != "a"', 'where len(str(<num>)) >= 2']):
+            out.append((g, cons))
+    return out
+
+
 SEARCH_SPEC = '<start> ::= <a> <b>?\n<a> ::= "x" | "(" <a> ")"\n<b> ::= <a>{1,2}\n'
 
 
@@ -188,6 +220,9 @@ def run(tier, seed):
                     "max_nodes": rnd.choice([8, 30, 100])}
         # plain fuzzing of a grammar with computed repetitions must go through the search (repair); keep as is
         stats.append(one_spec(tt, gid, g, cons, seed + gid, settings))
+    for k, (g, cons) in enumerate(generator_specs()):
+        for s_ in range(1 if tier == "quick" else 8):
+            stats.append(one_spec(tt, 200000 + 10 * k + s_, g, cons, seed + 31 * k + s_, {"desired": 6, "generations": 6, "population": 8, "max_nodes": 30}))
     f19_witness(tt)
     bad = tt.judge(rep)
     for tid, idx, clause, label, ir, info in bad:
